@@ -21,6 +21,10 @@ import TracklibVerif.Drv.Util
                                 → `<reward matrix> <segmentation> <stops>`: `stopsMatrix` (loop form with the `break`),
                                   `stopsSegmentation`, `stopsReported` as `a-e` pairs; the four arguments are `size × size`
                                   tables indexed `[i][e]`: far/short/keep 0|1, small 0|1|2 (2 = `minCircle` returned `None`)
+  stopsg <s> <diameter> <duration> <dist> <dur> <circ> <keep>
+                                → the same for `findStopsGlobal` with ITS three tests (`stopPredGlobal`): `dist[i][e]`, `dur[i][e]`,
+                                  `circ[i][e]` (a negative entry = `minCircle` returned `None`) are scalars compared by the model with
+                                  `<diameter>` and `<duration>` (the harness passes squared lengths against the squared diameter)
 errors: `err:index` (one row: `backward` indexes an empty table), `err:value` (no row: negative dimension). -/
 namespace TV.Drv.C12
 open TV.Partition TV.Drv
@@ -114,6 +118,21 @@ def runStops {α} [Add α] [LT α] [DecidableLT α] (zero : α) (shw : α → St
     let st := stopsReported zero sq p (fun a e => fn 0 keep a e == 1) size
     s!"{showListList shw mat} {showList toString (stopsSegmentation zero sq p size)} {joinWith "," (st.map (fun ae => s!"{ae.1}-{ae.2}"))}"
 
+def runStopsG {α} [Add α] [LT α] [DecidableLT α] (zero : α) (shw : α → String) (sq : Nat → α) (diameter duration : α)
+    (dist dur circ : List (List α)) (keep : List (List Nat)) : String :=
+  let size := dist.length
+  if !(square dist && square dur && square circ && square keep && dur.length == size && circ.length == size
+        && keep.length == size && bool01? keep) then "bad-request"
+  else if size == 0 then "err:value"
+  else if size == 1 then "err:index"
+  else
+    let p : StopPred := stopPredGlobal (fn zero dist) (fn zero dur)
+      (fun i e => let v := fn zero circ i e; if v < zero then none else some v) diameter duration
+    let C := stopsMatrix zero sq p size
+    let mat := (List.range size).map (fun i => (List.range size).map (fun j => C i j))
+    let st := stopsReported zero sq p (fun a e => fn 0 keep a e == 1) size
+    s!"{showListList shw mat} {showList toString (stopsSegmentation zero sq p size)} {joinWith "," (st.map (fun ae => s!"{ae.1}-{ae.2}"))}"
+
 def handle (cmd : String) (args : List String) : String :=
   match args with
   | [s, mat] =>
@@ -150,6 +169,19 @@ def handle (cmd : String) (args : List String) : String :=
         else if s == "f" then runStops (0.0 : Float) showFloat (fun n => (n * n).toFloat) a b c d
         else "bad-request"
       | _, _, _, _ => "bad-request"
+  | [s, dia, du, dist, dur, circ, keep] =>
+    if cmd != "stopsg" then "bad-request"
+    else if s == "q" then
+      match rat? dia, rat? du, ratListList? dist, ratListList? dur, ratListList? circ, natListList? keep with
+      | some a, some b, some c, some d, some e, some k =>
+        runStopsG (0 : Rat) showRat (fun n => ((n * n : Nat) : Rat)) a b c d e k
+      | _, _, _, _, _, _ => "bad-request"
+    else if s == "f" then
+      match float? dia, float? du, floatListList? dist, floatListList? dur, floatListList? circ, natListList? keep with
+      | some a, some b, some c, some d, some e, some k =>
+        runStopsG (0.0 : Float) showFloat (fun n => (n * n).toFloat) a b c d e k
+      | _, _, _, _, _, _ => "bad-request"
+    else "bad-request"
   | [s, mode, sig, glob, wd, wg] =>
     match mode.toNat? with
     | none => "bad-request"
